@@ -25,6 +25,7 @@ mod inject;
 mod tenantstore;
 mod tenantapi;
 mod rbac;
+mod partition;
 mod restjson;
 mod conninject;
 mod reload;
@@ -70,6 +71,7 @@ fn main() {
         "tenantstore-replay" => tenantstore::replay(rest),
         "tenantapi-replay" => tenantapi::replay(rest),
         "rbac-replay" => rbac::replay(rest),
+        "partition-replay" => partition::replay(rest),
         "restjson-replay" => restjson::replay(rest),
         "conninject-replay" => conninject::replay(rest),
         "reload-replay" => reload::replay(rest),
